@@ -284,7 +284,13 @@ struct Model {
 fn render(m: &Model, rng: &mut Rng) -> String {
     let mut s = String::from("#[typeshare]\npub struct UserA { pub v: u8 }\n#[typeshare]\npub struct UserB { pub w: String }\n#[typeshare]\npub struct Gen1<X> { pub g: X }\n#[typeshare]\npub struct Gen2<X, Y> { pub g: X, pub h: Y }\n\n");
     let g = if m.generics.is_empty() { String::new() } else { format!("<{}>", m.generics.join(", ")) };
-    s.push_str(&format!("#[typeshare]\npub struct Holder{g} {{\n"));
+    // a constraints decorator that names a parameter other than the first: the declaration keeps the parameters in order
+    let deco = match m.generics.len() {
+        2 if rng.coin() => format!("(swiftGenericConstraints = \"{}: Equatable & Hashable\")", m.generics[1]),
+        1 if rng.chance(1, 3) => format!("(swiftGenericConstraints = \"{}: Equatable\")", m.generics[0]),
+        _ => String::new(),
+    };
+    s.push_str(&format!("#[typeshare{deco}]\npub struct Holder{g} {{\n"));
     for (i, t) in m.fields.iter().enumerate() {
         // a sixth of the fields / payloads state their shared type through `serialized_as` on a field of an opaque Rust type:
         // the same translation is expected
@@ -322,7 +328,8 @@ fn render(m: &Model, rng: &mut Rng) -> String {
         s.push_str(&format!("#[typeshare]\npub struct Pnew{i}{gp}({});\n", t.render(rng, true)));
     }
     if !m.gpayloads.is_empty() {
-        s.push_str(&format!("#[typeshare]\n#[serde(tag = \"t\", content = \"c\")]\npub enum Pchoice{gp} {{\n"));
+        let deco = if m.gparams.len() == 2 && rng.coin() { format!("(swiftGenericConstraints = \"{}: Hashable\")", m.gparams[1]) } else { String::new() };
+        s.push_str(&format!("#[typeshare{deco}]\n#[serde(tag = \"t\", content = \"c\")]\npub enum Pchoice{gp} {{\n"));
         for (i, t) in m.gpayloads.iter().enumerate() {
             s.push_str(&format!("    Gpay{i}({}),\n", t.render(rng, true)));
         }
